@@ -47,7 +47,8 @@ RULE = (
     'and actors (wait, ctest, csignal, cunhang, fset) on SystemClock and '
     'TempoClocks. Non-trivial = an exception or YieldAndReset/AlwaysYield '
     'inside a nested next, or two or more waiters on one condition, or a '
-    'self-targeting call. Distinct by sha1.')
+    'self-targeting call. Distinct by sha1.'
+    ' Waiters may be nested 1-2 routines deep; condition tests are booleans, functions, bound methods, partials or callable objects; bodies may raise BaseException subclasses; other-ops may aim at any routine. rt_restore stage: simulated RT programs of routines ending/raising on sys/app/tempo clocks followed by hand-stepped routines after pauses.')
 ASSUMPTIONS = [
     'A routine never calls next() on itself or on a routine that is running '
     '(undocumented).',
